@@ -555,6 +555,13 @@ class Ref:
         t = n["v"][1]
         if self.kind(t) not in INT_KINDS + FLT_KINDS + ("enumeration",):
             return True
+        # a pValue node that cannot be read cannot be polled: the command counts as done (GenApi: IsDone is
+        # true when the command node is not readable).  Only the node's OWN modes are decided here; anything
+        # restricted further down is left to C18.
+        tn = self.nodes[t]
+        own_unreadable = tn.get("imposed", "RW") == "WO" or ("reg" in tn and tn["reg"]["acc"] == "WO")
+        if own_unreadable:
+            return True
         if self.restricted(t):
             raise Unspec()
         return self.src_int(n["cv"]) != self.as_int(t)
